@@ -114,7 +114,9 @@ class Gen:
         if op == 'ifexpr':
             if r.random() < 0.25:
                 # comparison chains: each link is a comparison of neighbours, nothing else (a != b != c says nothing of a and c)
-                return f'({a()} if {a()} {r.choice(["!=", "<", "<=", "=="])} {a()} {r.choice(["!=", "!=", "<", ">="])} {a()} else {a()})'
+                first = a()
+                last = first if r.random() < 0.5 else a()      # equal ends: where "neighbours differ" and "all distinct" part ways
+                return f'({a()} if {first} {r.choice(["!=", "!=", "<", "<=", "=="])} {a()} {r.choice(["!=", "!=", "<", ">="])} {last} else {a()})'
             return f'({a()} if {a()} {r.choice(["<", "<=", ">", "=="])} {a()} else {a()})'
         return f'{op}({a()}, {a()})'
 
